@@ -98,7 +98,7 @@ def fam_retry(rnd, n, overrun=True, checks=True):
     """Attempt scripts: every script over {ok,tr,perm,wrongtype,(overrun)} of length <= retries+1
     for retries 0..2, for a sequence action and for check actions running in parallel."""
     res = []
-    alpha = ["ok", "tr", "perm", "wrongtype"]
+    alpha = ["ok", "tr", "perm", "wrongtype", "wrongtr"]
     scripts = []
     for r in (0, 1, 2):
         for L in range(1, r + 2):
@@ -298,6 +298,8 @@ def fam_api(rnd, n, races=6):
                     "tag": "api-race", "lat": {"b1.s1.a1": [rnd.choice([200, 2000])]}})
     res.append({"kind": "api", "shape": tiny, "mode": "free", "out": {}, "api": ["submit", "sleep:60", "start", "plan", "wait"], "maxsubmitms": 25, "tag": "api-stale"})
     res.append({"kind": "api", "shape": tiny, "mode": "free", "out": {}, "api": ["submit", "start", "wait", "start", "race3", "plan"], "tag": "api-restart"})
+    res.append({"kind": "api", "shape": tiny, "mode": "free", "out": {}, "api": ["submit", "start", "wait", "start", "wait", "plan", "status", "start", "wait"], "tag": "api-restart2"})
+    res.append({"kind": "api", "shape": tiny, "mode": "free", "out": {}, "api": ["submit", "sleep:60", "start", "wait", "start", "wait", "status"], "maxsubmitms": 25, "tag": "api-stale2"})
     return res
 
 
@@ -325,7 +327,22 @@ def fam_resume(rnd, n):
             sh = shape([blk([2] * ns, conc, 0, g=bg), blk([1])], pg=pg)
             kpct = rnd.choice([0, 100, 100, 15, 30, 45, 60, 75, 90])
             ages = rnd.choice([0, maxage - 2, maxage - 1, maxage + 1, maxage + 2, maxage * 3, 5])
-            members.append({"shape": sh, "out": out, "kpct": kpct, "ages": ages})
+            members.append({"shape": sh, "out": out, "kpct": kpct, "ages": ages, "agemode": rnd.choice(["", "", "", "start", "end"])})
         res.append({"kind": "resume", "shape": members[0]["shape"], "mode": "free", "out": {}, "members": members, "norecovery": rnd.random() < 0.25,
                     "maxages": maxage, "tag": "resume", "latmax": 100, "contdelay": 300})
+    return res
+
+
+def fam_crash_tol(rnd, n):
+    """Crash points of blocks with tolerated failures (the failure count must survive a restart)."""
+    res = []
+    for i in range(n):
+        ns = rnd.choice([3, 4])
+        tol = rnd.choice([1, 1, 2])
+        conc = rnd.choice([1, 1, 2])
+        sh = shape([blk([rnd.choice([1, 2]) for _ in range(ns)], conc, tol), blk([1])])
+        out = {}
+        for s in rnd.sample(range(1, ns + 1), rnd.choice([1, tol, tol])):
+            out["b1.s%d.a1" % s] = ["perm"]
+        res.append(scn(sh, "free", out, crash="sample", crashmax=12, fn=True, tag="crash-tol", latmax=100, waitms=5000))
     return res
